@@ -1369,6 +1369,11 @@ class Sim:
             if self.eg and self.eg["phase"] in (2, 3) and "usereg" in self.top_rc:
                 self.eg["phase"] = 4  # the round ended before its k-th critical point: release
                 continue
+            if cands and sleepers and self.steps - self.last_progress_step > 60 and all(c[1] == "actor" and c[2].msg["k"] != "jobrun" for c in cands) and not self.lock_held_by_live_actor():
+                # busy pollers (poll interval 0) keep the system "runnable" without doing anything: let time pass for the sleepers
+                self.vnow = min(a.wake for a in sleepers)
+                self.last_progress_step = self.steps
+                continue
             if not cands:
                 if not sleepers:
                     return None
